@@ -559,10 +559,11 @@ def examine(ctx, case, tmp, lines, pend):
                 clause = "short_data" if short else "roundtrip"
                 ctx.count("oracle:" + clause)
                 if impl != want:
+                    w, g = diff_brief(want, impl)
                     ctx.violation(
-                        slim(case), brief(want), brief(impl),
+                        slim(case), w, g,
                         "decode(file) == (shape, stored samples [G.711-expanded unless 1-byte dtype], warning iff data short)",
-                        tags=dict(clause=clause, coding=case["coding"], mono=case["chans"] == 1,
+                        tags=dict(clause=clause, mono=case["chans"] == 1,
                                   frame_divides_read=(R % F == 0), big_frame=F > R),
                     )
     elif case.get("expect"):
@@ -578,6 +579,18 @@ def examine(ctx, case, tmp, lines, pend):
 def brief(s, n=160):
     s = str(s)
     return s if len(s) <= n else s[:n] + "...(%d chars)" % len(s)
+
+
+def diff_brief(want, got):
+    """(expected, got) shortened to dtype/shape/warning + the neighbourhood of the first differing sample"""
+    a, b = str(want).split(" "), str(got).split(" ")
+    if len(a) == 5 and len(b) == 5 and a[0] == b[0] == "ok":
+        xs, ys = a[4].split(","), b[4].split(",")
+        i = next((k for k in range(min(len(xs), len(ys))) if xs[k] != ys[k]), min(len(xs), len(ys)))
+        lo = max(0, i - 2)
+        fmt = lambda h, v: "%s | %d samples, [%d..]: %s" % (" ".join(h), len(v), lo, ",".join(v[lo:i + 6]))
+        return fmt(a[:4], xs), fmt(b[:4], ys)
+    return brief(want), brief(got)
 
 
 def slim(case):
@@ -705,7 +718,7 @@ def run(ctx, driver):
         stream = []
         for c in gen_badhdr_all(r):
             stream.append(c)
-        n = ctx.scale(170, 2600)
+        n = ctx.scale(520, 6000)
         gens = [(gen_valid, 0.36), (gen_trunc, 0.30), (gen_extra, 0.08), (gen_bigframe, 0.05), (gen_hdrfuzz, 0.19),
                 (gen_shnmagic, 0.02)]
         for _ in range(n):
